@@ -553,6 +553,53 @@ fn run_name_resolution(ops: &[Op], odd_names: bool) {
     }
 }
 
+// ---------------------------------------------------------------- label collision (C08, known finding)
+// The label table of a compiled program is keyed by 32-bit handles shared by cards (CardIndex::as_handle) and
+// functions (Handle::from_u64(position)).  ops = [(0, f, i), (1, j, p)]: function number f of the root module gets a
+// composite card at [i] whose child [j] returns 7777; main calls function number p, which returns p.
+fn run_label_collision(ops: &[Op]) {
+    let (f, i) = (ops[0].1 as usize, ops[0].2 as usize);
+    let (j, p) = (ops[1].1 as usize, ops[1].2 as usize);
+    let n = f.max(p) + 1;
+    let mut functions = vec![("main".to_string(), Function::default().with_cards(vec![Card::set_global_var("g", Card::call_function(format!("fn_{p}"), vec![]))]))];
+    for k in 1..n {
+        let body = if k == f {
+            let mut inner: Vec<Card> = (0..j).map(|_| CardBody::ScalarNil.into()).collect();
+            inner.push(Card::return_card(Card::scalar_int(7777)));
+            let mut cards: Vec<Card> = (0..i).map(|_| CardBody::ScalarNil.into()).collect();
+            cards.push(Card::composite_card("c", inner));
+            cards
+        } else {
+            vec![Card::return_card(Card::scalar_int(k as i64))]
+        };
+        functions.push((format!("fn_{k}"), Function::default().with_cards(body)));
+    }
+    let module = Module { functions, ..Default::default() };
+    let program = match compile(module, None) { Ok(p) => p, Err(e) => { println!("OK (does not compile: {:?})", e.payload); return; } };
+    let mut vm = Vm::new(()).unwrap().with_max_iter(100_000);
+    let r = vm.run(&program);
+    let g = vm.read_var_by_name("g", &program.variables);
+    if r.is_err() || !matches!(g, Some(Value::Integer(x)) if x == p as i64) {
+        fail("label_collision", ops, 1, format!("main calls fn_{p} (which returns {p}) and gets {:?} (run: {:?}): the label of card [{i},{j}] of fn_{f} replaced the label of fn_{p}", g, r.map(|_| ())));
+    }
+}
+/// enumerate small programs for a card label that equals the label of an earlier function
+fn search_label_collision() {
+    use cao_lang::compiler::CardIndex;
+    for f in 1..48usize {
+        let fh: Vec<(usize, Handle)> = (1..=f).map(|p| (p, Handle::from_u64(p as u64))).collect();
+        for i in 0..1600usize {
+            let base = CardIndex::new(f, i);
+            for j in 0..1600usize {
+                let h = base.clone().with_sub_index(j).as_handle();
+                for (p, ph) in &fh {
+                    if *ph == h { run_label_collision(&[(0, f as u64, i as i64), (1, j as u64, *p as i64)]); }
+                }
+            }
+        }
+    }
+}
+
 fn dispatch(unit: &str, ops: &[Op], variant: u64) {
     VARIANT.store(variant, std::sync::atomic::Ordering::Relaxed);
     match unit {
@@ -563,6 +610,7 @@ fn dispatch(unit: &str, ops: &[Op], variant: u64) {
         "cao_lang_table" => run_table(ops),
         "object_laws" => run_object_laws(ops),
         "name_resolution" => run_name_resolution(ops, variant % 4 == 3),
+        "label_collision" => run_label_collision(ops),
         _ => { eprintln!("unknown unit {unit}"); std::process::exit(2); }
     }
 }
@@ -579,6 +627,11 @@ fn main() {
     }
     let seed: u64 = args[3].parse().unwrap();
     let iters: u64 = args[4].parse().unwrap();
+    if unit == "label_collision" {
+        search_label_collision();
+        println!("OK no card label equals the label of an earlier function for functions < 48, card paths [i, j] with i, j < 1600");
+        return;
+    }
     let mut rng = Rng(seed.wrapping_mul(0x9E3779B97F4A7C15) | 1);
     for it in 0..iters {
         let len = 1 + rng.below(if it % 4 == 0 { 40 } else { 12 }) as usize;
